@@ -13,7 +13,7 @@ PID = "C11"
 PART = "x24_params"
 CFG = {
     "quick":    dict(mcs=["MC_Params.cfg"], gens=["Gen_Params.cfg"], nhist=30, steps=60),
-    "thorough": dict(mcs=["MC_Params_t.cfg"], gens=["Gen_Params.cfg", "Gen_Params_t.cfg"], nhist=250, steps=120),
+    "thorough": dict(mcs=["MC_Params_t.cfg"], gens=["Gen_Params.cfg", "Gen_Params_t.cfg"], nhist=150, steps=120),
 }
 ENV = {"ASAN_OPTIONS": vlib.ASAN_ENV + ":symbolize=0"}
 CHUNK = 8000
